@@ -15,7 +15,9 @@ RULE = ("boundary sweep: limit in {0,1,2,10,1023,1024,1025} x pre-existing activ
         "byte positions, sizes around the limit and around 1024. Every policy consultation reports "
         "(len_estimate, metadata().len(), rolled). In a quarter of the small-limit random histories half of the appends "
         "carry a NESTED record: the roller (or the encoder) of the call appends it to a second size-triggered rolling "
-        "appender (limit 10, window 2) from inside the call; that appender must count and roll it like any record. "
+        "appender (limit 10, window 2) from inside the call; that appender must count and roll it like any record. In another "
+        "quarter a third of the records are preceded by a record whose ENCODER FAILS after writing 1-8 bytes: those bytes "
+        "are counted and reach the file with the next record - shown = disk at its consultation. "
         "non-trivial = size trigger with at least one append; "
         "distinct = distinct case line")
 ASSUMPTIONS = list(rc.COMMON_ASSUMPTIONS)
@@ -91,6 +93,7 @@ def cases(rng, tier):
         prev = [0] if pre_sz is None else [1, rc.rec_bytes(rng, "pre", pre_sz)]
         ops = []
         nested = (not big) and limit < 100 and rng.chance(1, 4)
+        enc_fail = (not nested) and rng.chance(1, 4)
         for j in range(rng.range(3, 5 if big else 8)):
             if rng.chance(1, 6):
                 ops.append([1, rng.choice([1, 1, 0])])
@@ -101,6 +104,9 @@ def cases(rng, tier):
                     lim = min(limit, 40)
                     sz = rng.choice([0, 1, 2, 3, max(0, lim - 1), lim, lim + 1, rng.below(12)])
                 op = rc.op_append(rng, "r%d" % j, sz)
+                if enc_fail and rng.chance(1, 3):
+                    # a record whose encoder fails after writing a few bytes, then the record proper
+                    ops.append([11, rc.chunked(rng, rc.rec_bytes(rng, "f%d" % j, rng.range(1, 9)))])
                 if nested and rng.chance(1, 2):
                     # the roller (or the encoder) of this call appends a record to a SECOND size-triggered rolling
                     # appender from inside the call: it must be counted and rolled there like any record
